@@ -25,6 +25,8 @@ func init() {
 			{ID: "C05.4", Desc: "codec pair: dump with body, parse with the inverse", Run: func(c *Ctx) { ruleCodecPair(c, "C05.4") }, MinSites: 2},
 			{ID: "C05.5", Desc: "header-write whitelist", Run: ruleC05_5, MinSites: 5},
 			{ID: "C05.6", Desc: "status applied after the entry was serialised", Run: ruleC05_6, MinSites: 1},
+			{ID: "C05.8", Desc: "a valid origin Date is forwarded and stored unchanged; only an invalid one is repaired", Run: func(c *Ctx) { ruleDateRepair(c, "C05.8") }, MinSites: 1},
+			{ID: "C05.7", Desc: "no field of an origin or stored response object is rewritten (only header entries, C05.5)", Run: ruleC05_7, MinSites: 1},
 		},
 	})
 }
@@ -490,4 +492,47 @@ func instrReaches(a, b ssa.Instruction) bool {
 		return blockInCycle(a.Block())
 	}
 	return reachableAvoiding(a.Block(), b.Block(), nil) && a.Block() != b.Block()
+}
+
+// ruleC05_7: what is replayed is what the origin sent. Header entries are governed by C05.5; every other part of the
+// response (status, protocol, framing fields such as TransferEncoding / ContentLength / Trailer) must reach the
+// serialiser as received: no function on the exchange stores into a field of an *http.Response. The body field is
+// exempt (replacing the reader by an equivalent one is how a body is re-armed after it was read).
+func ruleC05_7(c *Ctx) {
+	desc := "no function on the exchange writes a field of a response object (other than Body)"
+	var fns []*ssa.Function
+	for fn := range c.A.Reach {
+		fns = append(fns, fn)
+	}
+	sort.Slice(fns, func(i, j int) bool { return FuncName(fns[i]) < FuncName(fns[j]) })
+	bad := 0
+	scanned := 0
+	for _, fn := range fns {
+		scanned++
+		instrsOf(fn, func(in ssa.Instruction) {
+			st, ok := in.(*ssa.Store)
+			if !ok {
+				return
+			}
+			fa, ok := st.Addr.(*ssa.FieldAddr)
+			if !ok || !isHTTPResponsePtr(fa.X.Type()) {
+				return
+			}
+			name := fieldName(fa.X.Type(), fa.Field)
+			if name == "Body" {
+				return
+			}
+			// a response object built here from scratch (composite literal) is not an origin/stored response
+			if _, isAlloc := c.An.canon(fa.X).(*ssa.Alloc); isAlloc {
+				return
+			}
+			bad++
+			where := c.P.ShortName(fn) + "@" + c.P.InstrPos(in)
+			c.Fail("C05.7", "response-field-written field="+name+" fn="+c.P.ShortName(fn), desc,
+				where+": writes Response."+name+"; the stored and replayed message differs from what the origin sent (e.g. clearing TransferEncoding makes the serialiser drop the trailer section of a chunked response)", where)
+		})
+	}
+	if bad == 0 {
+		c.Pass("C05.7", "response-fields-untouched", desc, fmt.Sprintf("%d functions reachable from RoundTrip scanned, 0 stores into *http.Response fields", scanned))
+	}
 }
